@@ -112,8 +112,8 @@ type histStats struct {
 }
 
 func short(s string) string {
-	if len(s) > 10 {
-		return s[:10]
+	if len(s) > 48 {
+		return s[:48]
 	}
 	return s
 }
@@ -157,6 +157,9 @@ func witnessOps(ops []histOp) []string {
 // checkHistory decides one recorded history: direct checks that need no search (fork, invented / failed / errored
 // values becoming visible, broken chain) and the porcupine linearizability check with the weak reads' intervals
 // widened back to the handle's last synchronisation (A.1: stale views are legal, invented or future ones are not).
+// quietDup: the caller reports values installed twice itself (blobstore version reuse has its own key).
+var quietDup bool
+
 func checkHistory(c *rig.Ctx, key string, label string, ops []histOp, initial string, timeout time.Duration) histStats {
 	var st histStats
 	installed := map[string]*histOp{} // value -> the successful update that installed it
@@ -185,7 +188,7 @@ func checkHistory(c *rig.Ctx, key string, label string, ops []histOp, initial st
 		case o.OK:
 			st.commitsOK++
 			if o.New != o.Exp {
-				if prev, dup := installed[o.New]; dup {
+				if prev, dup := installed[o.New]; dup && !quietDup {
 					c.Violation(key+"/same-value-installed-twice", fmt.Sprintf("%s: value %s was installed by two successful updates (clients %d and %d)", label, short(o.New), prev.Client, o.Client), wit(nil))
 				}
 				installed[o.New] = o
